@@ -371,7 +371,14 @@ class MultiFit(FitBase):
             par_names=self._cost_function.arg_names,
             existing_behavior="replace",
         )
+        # the new cost function needs a new fitter: carry over the parameters that were fixed or limited on the old one
+        _previous_fitter = getattr(self, "_fitter", None)
         self._initialize_fitter()
+        if _previous_fitter is not None:
+            for _par_name, _par_value in _previous_fitter.fixed_parameters.items():
+                self._fitter.fix_parameter(_par_name, _par_value)
+            for _par_name, _par_limits in _previous_fitter.limited_parameters.items():
+                self._fitter.limit_parameter(_par_name, _par_limits)
 
     def _get_shared_fits_constraint_cost(self):
         """cost of the parameter constraints of the individual chi2 fits (whose cost is replaced by the shared cost)"""
